@@ -9,7 +9,7 @@ RULE = ("one client connection with transfers in both directions that are still 
         "changes (port only or IP and port; once, or twice in quick succession so that the first new path is not yet "
         "validated), with migration allowed or refused by the server, genuine datagrams replayed from an attacker "
         "address (often faster than the original: the copy is then the fresh one), replays from the own address, loss, "
-        "reordering, duplication, connection-ID rotation, clients that fall silent right after moving, idle tails in "
+        "reordering, duplication, connection-ID rotation, pure-receiver clients that only acknowledge after moving, clients that fall silent right after moving, idle tails in "
         "which only the attacker talks; non-trivial = the server's remote address changed at least once, or a datagram "
         "from a foreign address reached a connection that must ignore it")
 
@@ -34,9 +34,29 @@ def gen_blackout(rng):
     return S.case_of(d)
 
 
+def gen_recvonly(rng):
+    """a client that is a pure receiver (download in progress, it only acknowledges) changes address on a
+    loss-free constant-delay link: its ACK-only packets are non-probing, the server must follow; the
+    run is cut before any idle timeout so that a stalled connection is still Established at the end"""
+    dm = rng.choice([5000, 10000, 30000])
+    d = {"SEED": rng.range(1, 1 << 30), "DELAY_MIN": dm, "DELAY_MAX": dm, "NBIDI": 1, "NUNI": 0,
+         "STREAM_BYTES": 1, "ECHO_BYTES": rng.choice([100000, 150000]), "READ_MAX": 100000, "IDLE_MS": 30000,
+         "MAX_TIME": 6_000_000, "GSO": rng.choice([1, 2, 10]), "CLOSER": 0, "FOLLOW_ONE": 1, "MIGRATE_SILENT": 1}
+    # early in the download: the receiver has not yet consumed enough to owe a flow-control update
+    d["MIGRATE_AT"] = 2 * dm * rng.range(3, 4) + rng.below(2 * dm)
+    d["MIGRATE_KIND"] = rng.below(2)
+    if rng.chance(1, 3):
+        d["ACK_FREQ"] = rng.choice([2, 10])
+    if rng.chance(1, 4):
+        d["CONTROLLER"] = rng.choice([1, 2])
+    return S.case_of(d)
+
+
 def gen_case(rng):
     if rng.chance(1, 5):
         return gen_blackout(rng)
+    if rng.chance(1, 8):
+        return gen_recvonly(rng)
     d = {"SEED": rng.range(1, 1 << 30)}
     d["DELAY_MIN"] = rng.choice([2000, 5000, 10000, 30000])
     d["DELAY_MAX"] = d["DELAY_MIN"] * rng.choice([1, 1, 2, 4])
